@@ -75,6 +75,7 @@ FORMULAS = {
     'F5': '=A1&A2', 'F6': '=A1&A2&A3', 'F7': '=CONCATENATE(A1,A2,A3)', 'F8': '=A1&B1', 'F9': '=CONCATENATE(B1,A1,C1)',
     'F10': '=SEARCH(A2,A1)', 'F11': '=SEARCH(A2,A1,B1)', 'F12': '=SEARCH("a?b",A1)', 'F13': '=VALUE(A1)',
     'F14': '=LEFT(A1)', 'F15': '=RIGHT(A1)', 'F16': '=SEARCH("b*a",A1,B1)', 'F17': '=LEFT(MID(A1,B1,2),C1)', 'F18': '=RIGHT(LEFT(A1,B1))&MID(RIGHT(A1,B1),C1,1)',
+    'F19': '=CONCATENATE(B1)', 'F20': '=CONCATENATE(A1)&"!"', 'F21': '=CONCATENATE(B1+1)&A1',
 }
 CONSTS = {'A1': 'abc', 'A2': 'b', 'A3': 'x', 'B1': 1, 'C1': 1}
 K = {}
@@ -189,6 +190,9 @@ def run(report, tier, seed):
         e = RT.EmptyCell()
         return ev('F5', A1=e, A2=b) == b and ev('F5', A1=a, A2=e) == a and ev('F7', A1=a, A2=e, A3=c) == a + c and ev('F6', A1=e, A2=e, A3=c) == c
     ''', encodes=cenc, requires="'F5' in K and 'F6' in K and 'F7' in K")
+    s.add('f_concatenate_single_operand', 'a: str, i: int', "len(a) <= 2 and all(ch in 'abAB.' for ch in a) and -1000 <= i <= 1000",
+          "return ev('F19', B1=i) == str(i) and ev('F20', A1=a) == a + '!' and ev('F21', A1=a, B1=i) == str(i + 1) + a and ev('F20', A1=i) == str(i) + '!'",
+          encodes=cenc, requires="'F19' in K and 'F20' in K and 'F21' in K")
     s.add('f_amp_text_int', 'a: str, i: int', "len(a) <= 2 and all(ch in 'abAB.' for ch in a) and -1000 <= i <= 1000",
           "return ev('F8', A1=a, B1=i) == a + str(i)", encodes=cenc, requires="'F8' in K")
     s.add('f_concatenate_int_text_int', 'a: str, i: int, j: int', "len(a) <= 2 and all(ch in 'abAB.' for ch in a) and -1000 <= i <= 1000 and -1000 <= j <= 1000",
